@@ -100,12 +100,18 @@ struct SrvScript {
     {
         const int n0 = peer.connections;
         const int sig0 = connectedSignals;
-        const qint64 sent0 = c.sentBytes;
+        const qint64 sent0 = c.sentBytes, recv0 = peer.totalReceived;
         c.connectToServer(c.configuration());
         if (!peer.waitConnection(n0 + 1, timeoutMs)) {
             return fail("no connection");
         }
-        const qint64 recv0 = peer.totalReceived;
+        // no Nagle / delayed-ACK stalls between the two ends (timing only)
+        if (auto *cs = c.findChild<QSslSocket *>()) {
+            cs->setSocketOption(QAbstractSocket::LowDelayOption, 1);
+        }
+        if (peer.sock) {
+            peer.sock->setSocketOption(QAbstractSocket::LowDelayOption, 1);
+        }
         smActive = false;   // nothing counts until <enabled/> / <resumed/>
         if (!waitFor("<stream:stream")) {
             return fail("no stream header");
